@@ -16,16 +16,19 @@ CLAIM = dict(
          "unchanged, the multi-value ones keep the values stored before the refused one; no stored value ever contains CR or LF), "
          "the Content-Length that werkzeug computes equals the number of body bytes produced, no body bytes for HEAD / 1xx / 204 / "
          "304 and no Content-Length for 1xx / 204, the status line for int / HTTPStatus / 'code reason' input, and "
-         "close-exactly-once for every response that is not in direct passthrough (refuted with a witness for direct "
-         "passthrough: a known finding). The status / method conditions of get_app_iter and get_wsgi_headers, the entity-header "
+         "the Location handed to the server is ASCII for every iri_to_uri / urljoin meeting their contracts (autocorrect on or "
+         "off), and the close chain through ClosingIterator: every call_on_close callback exactly once and in registration "
+         "order, the wrapped iterable closed once, with or without make_sequence, for every response that is not in direct "
+         "passthrough (refuted with a witness for direct passthrough: a known finding). The status / method conditions of get_app_iter and get_wsgi_headers, the entity-header "
          "table and the status-phrase table are regenerated from the source on every run; the models are compared with "
          "werkzeug.wrappers.Response by differential execution over the product of body shapes x statuses x methods x preset / "
          "absent Content-Length x direct_passthrough with instrumented closable iterables, and over mutator sequences.",
     note="Trusted: Coq kernel; translator tools/c05.py (+ tools/c08.py); ExtrOcamlBasic extraction + drivers; UTF-8 model "
-         "lib/Utf8.v for str body items; int() of a status string modelled on ASCII decimal digits; iri_to_uri is a parameter of "
-         "the model (instantiated with the identity for the correspondence runs, which use Location values that iri_to_uri leaves "
-         "alone; IRI Locations and autocorrect_location_header/urljoin are judged by the harness oracle only: "
-         "the output is ASCII); generator / iterator protocol, wsgi.file_wrapper and threads are runtime behaviour outside the model.",
+         "lib/Utf8.v for str body items; int() of a status string modelled on ASCII decimal digits; iri_to_uri, urljoin and "
+         "get_current_url are parameters of the model with the contract ASCII in, ASCII out (iri_to_uri: ASCII out; its "
+         "percent-encoding part is C15_uri_ascii), instantiated with the identity for the correspondence runs, which use Location "
+         "values that iri_to_uri leaves alone; IRI Locations and autocorrect are also judged on the implementation by the harness "
+         "oracle; the close clause is also checked through test.run_wsgi_app / Client.open / Response.from_app; generator / iterator protocol, wsgi.file_wrapper and threads are runtime behaviour outside the model.",
     design="6/C05")
 
 
@@ -217,12 +220,15 @@ class Closable:
     def __init__(self, chunks):
         self.chunks = list(chunks)
         self.closed = 0
+        self.log = None          # shared event log: "w" for this close, the callback ids for call_on_close callbacks
 
     def __iter__(self):
         return iter(self.chunks)
 
     def close(self):
         self.closed += 1
+        if self.log is not None:
+            self.log.append("w")
 
 
 class NoClose:
@@ -300,7 +306,7 @@ def make_body(shape, rng):
 
         class CountingFW(FileWrapper):
             def close(self_inner):
-                cnt.closed += 1
+                cnt.close()
                 super().close()
         return CountingFW(f, buffer_size=8), chunks, cnt, False
     raise ValueError(shape)
@@ -351,8 +357,17 @@ def serve_case(chk, rng, shape, status, method, preset_cl, passthrough, ncb, pre
     if location is not None:
         r.headers["Location"] = location
     runs = [0] * ncb
+    log: list = []
+    if counter is not None:
+        counter.log = log
+
+    def make_cb(i):
+        def cb():
+            runs[i] += 1
+            log.append(str(i))
+        return cb
     for i in range(ncb):
-        r.call_on_close(lambda i=i: runs.__setitem__(i, runs[i] + 1))
+        r.call_on_close(make_cb(i))
     made_seq = False
     if pre == "make_sequence" and not passthrough:
         r.make_sequence()
@@ -416,6 +431,8 @@ def serve_case(chk, rng, shape, status, method, preset_cl, passthrough, ncb, pre
                          f"(direct_passthrough={passthrough}, method {method}, status {code})", case)
             elif wrapped is not None and wrapped != 1:
                 chk.fail("close-wrapped", f"the wrapped iterable's close() ran {wrapped} times", case)
+            elif [x for x in log if x != "w"] != [str(i) for i in range(ncb)]:
+                chk.fail("close-callbacks", f"the callbacks ran in the order {log!r}, registered in the order {list(range(ncb))!r}", case)
     # ---------------- model line
     line = None
     if location is None and not autocorrect:
@@ -426,9 +443,9 @@ def serve_case(chk, rng, shape, status, method, preset_cl, passthrough, ncb, pre
                              str(int(made_seq)), str(int(method == "HEAD"))])
         except Exception:  # noqa: BLE001
             line = None
-    cb = runs[0] if runs else None
     obs_chunks = "/".join(item_tok(c) for c in out) if out else "~"
-    obs = " ".join([obs_chunks, S(st), kvs(hdrs, S), "?" if wrapped is None else str(wrapped), "?" if cb is None else str(cb)])
+    trace = ",".join(log) if log else "~"
+    obs = " ".join([obs_chunks, S(st), kvs(hdrs, S), trace if counter is not None else "?" + trace])
     return line, obs
 
 
@@ -585,8 +602,17 @@ def load_corpus():
 
 
 def _cmp_fields(a: str, b: str) -> bool:
+    """a field of the implementation's observation starting with ? is a close trace in which the wrapped iterable's
+    own close cannot be observed (generators): compare without it"""
     fa, fb = a.split(" "), b.split(" ")
-    return len(fa) == len(fb) and all(x == y or x == "?" for x, y in zip(fa, fb))
+
+    def same(x, y):
+        if x == y:
+            return True
+        if x.startswith("?"):
+            return x[1:] == (",".join(t for t in y.split(",") if t != "w") or "~")
+        return False
+    return len(fa) == len(fb) and all(same(x, y) for x, y in zip(fa, fb))
 
 
 def run(chk: Check) -> None:
